@@ -137,6 +137,20 @@ Definition schema_faithful (c : case_C16) : bool :=
                         end) tab
   end.
 
+(* state point files are compared as state points: a file that job.init() wrote from a schema-parsed
+   state point may order its keys differently from the source file (same value, same id) *)
+Definition sp_canon (c : case_C16) (d : fs) : fs :=
+  List.map (fun e => match fst e, snd e with
+                     | [w; id; f], Some bytes =>
+                         if str_eqb f FN_SP then
+                           match parse_get (o_parse (c_oracle c)) bytes with
+                           | Some v => (fst e, Some (canon (ftab_get (o_frepr (c_oracle c))) v))
+                           | None => e
+                           end
+                         else e
+                     | _, _ => e
+                     end) d.
+
 Definition ids_disjoint (a b : list job) : bool :=
   forallb (fun j => negb (existsb (fun k => str_eqb (j_id j) (j_id k)) b)) a.
 
@@ -151,7 +165,7 @@ Definition h_import_contained (c : case_C16) : bool :=
 Definition h_no_overwrite (c : case_C16) : bool := negb (i_run c) || pre_untouched (c_pre c) (i_dst c).
 Definition h_roundtrip (c : case_C16) : bool :=
   negb (i_run c) || negb (schema_faithful c) || negb (ids_disjoint (c_jobs c) (c_pre c))
-  || (if is_none (i_exn c) then fs_eqb (i_dst c) (expected_dst (c_pre c) (c_jobs c))
+  || (if is_none (i_exn c) then fs_eqb (sp_canon c (i_dst c)) (sp_canon c (expected_dst (c_pre c) (c_jobs c)))
       else (* raised: before any job has been copied (into an empty project); with jobs already
               present only containment / no-overwrite are required *)
            negb (is_none (hd_error (c_pre c))) || fs_eqb (i_dst c) (dst_init (c_pre c))).
